@@ -315,7 +315,19 @@ class CallMixin:
         if src in self.eng.prop.consts:
             return self.const_sv(self.eng.prop.consts[src])
         if n.keywords and any(k.arg is None for k in n.keywords):
-            raise Unsupported('**kwargs call')
+            if ast.unparse(f) in self.c.calls:
+                # f(..., **options) resolved to a contract by `calls`: the extra options are evaluated and dropped -- the callee's
+                # contract must hold whatever they are
+                for k in n.keywords:
+                    if k.arg is None:
+                        try:
+                            self.ev(k.value, st)
+                        except Unsupported:
+                            pass
+                n = ast.Call(func=n.func, args=n.args, keywords=[k for k in n.keywords if k.arg is not None])
+                ast.copy_location(n, f)
+            else:
+                raise Unsupported('**kwargs call')
         if isinstance(f, ast.Name):
             return self.call_name(f.id, n, st)
         if isinstance(f, ast.Attribute):
